@@ -201,25 +201,40 @@ def history(ck, rng, S, nops, trans_broken, exact=True, record=True, started=Non
         d = check_R(ref, J, exact)
         if d: raise Violation("MonteCarloSampler_param of an un-started sampler is not the all-occupied state: " + d, "c35-state", dict(history=hist))
     ntrivial = 0
+    probes = []          # trial moves asked before; asked again after every re-start / update for which they are still meaningful
+
+    def trial_ij(i, j):
+        hist.append(["trial", i, j])
+        d1, d2 = ref.deltaE_trial((i,), (j,)), J.deltaE_trial(i, j)
+        if (d1 != d2) if exact else (abs(d1 - d2) > FTOL * (1 + abs(d1))):
+            raise Violation("deltaE_trial(%d,%d): reference %r, compiled %r" % (i, j, d1, d2), "c35-deltaE", dict(history=hist[-40:]))
+        if record: ev.append("(JTrial (K:=Zring) (N %d) (N %d) %s)" % (i, j, mcsys.zz(mcsys.intval(SCALE * d2, "deltaE"))))
+        return d2
+
+    def ask_probes():
+        for (i, j) in probes:
+            if J.occ[i] == 0 and J.occ[j] == 1: trial_ij(i, j)
+
     for k in range(nops):
         un = [int(x) for x in J.unoccupied_set[:J.Nunocc]]
         oc = [int(x) for x in J.occupied_set[:J.Nocc]]
         r = rng.random()
         try:
-            if r < 0.08 or not un or not oc:
-                occ = mcsys.random_occ(rng, S)
-                hist.append(["start", occ.tolist()])
-                both(ref, J, lambda: ref.start(occ.copy()), lambda: J.start(occ), first(), "start()", hist)
-                if record: ev.append("(JStart (K:=Zring) %s %s)" % (mcsys.zl(occ), jobs_term(J)))
+            if r < 0.12 or not un or not oc:
+                ask_probes()
+                for rep in range(rng.choice((1, 1, 2))):       # re-starts without any update in between
+                    occ = mcsys.random_occ(rng, S)
+                    hist.append(["start", occ.tolist()])
+                    both(ref, J, lambda: ref.start(occ.copy()), lambda: J.start(occ), first(), "start()", hist)
+                    if record: ev.append("(JStart (K:=Zring) %s %s)" % (mcsys.zl(occ), jobs_term(J)))
+                    ask_probes()
                 if not un or not oc:
                     if k > 3 and (S.Nsites - (S.vacancy >= 0)) < 2: break
             elif r < 0.30:
                 i, j = rng.choice(un), rng.choice(oc)
-                hist.append(["trial", i, j])
-                d1, d2 = ref.deltaE_trial((i,), (j,)), J.deltaE_trial(i, j)
-                if (d1 != d2) if exact else (abs(d1 - d2) > FTOL * (1 + abs(d1))):
-                    raise Violation("deltaE_trial(%d,%d): reference %r, compiled %r" % (i, j, d1, d2), "c35-deltaE", dict(history=hist[-40:]))
-                if record: ev.append("(JTrial (K:=Zring) (N %d) (N %d) %s)" % (i, j, mcsys.zz(mcsys.intval(SCALE * d2, "deltaE"))))
+                d2 = trial_ij(i, j)
+                if (i, j) not in probes: probes.append((i, j))
+                if len(probes) > 5: probes.pop(0)
                 ntrivial += d2 != 0
             elif r < 0.60:
                 i, j = rng.choice(un), rng.choice(oc)
